@@ -21,10 +21,13 @@ DECLINED = ["translation correctness while other streams mutate colliding bucket
             "execution exactly once under arbitrary user pop policies"]
 ASSUMPTIONS = ["user callbacks create_unit/free_unit are opaque"]
 RULES_DOC = dict(common.SHARED_DOC)
+RULES_DOC["X8"] = common.X8_DOC
+RULES_DOC["X7"] = common.X7_DOC
 RULES_DOC["R5"] = "unit_unmap_thread clears exactly one entry of the bucket on every path (the walk stops at the first match): two user pools may hand out equal unit values for one work unit while it moves, and the entry just registered must survive the removal of the old one"
 RULES_DOC["X4"] = common.X4_DOC
 RULES_DOC["R6"] = "= C11.R4: ABT_thread_yield_to removes the target's unit from the target's own pool (the pool that holds the unit), before switching to it"
 RULES_DOC["R7"] = "the legacy batch-pop emulation writes handles only at indices below the caller's array length (the loop over the caller's array is bounded by `i < max`, never `<=`), and reports exactly the number it wrote"
+RULES_DOC["R9"] = "= C18.R6: a step that can fail because a user pool's create_unit fails (re-associating a unit on revive / migrate) runs before the descriptor is modified: on the error return the unit is still TERMINATED, mapped to its old unit and can be revived again"
 RULES_DOC["R8"] = "= C07.R7: the batch push hands the pool the unit each work unit has after it was associated with that pool (compaction with one counter, the slot written after the association)"
 RULES_DOC.update({
     "R1": "unit typestate on every path of set/init/unset associated pool: create -> map -> store | free(new) ; unmap(old) -> free(old pool) once; no use after free",
@@ -403,7 +406,11 @@ def rule_R7(P, rep):
     st = [(i, F.nodes[F.strip(lh)]) for _b, i, lh, rh in F.stores() if F.nodes[F.strip(lh)].get("k") == "idx" and F.base_var(lh) == arr[0]]
     rep.need(st, "pool_pop_many_wrapper does not store into the caller's array")
     for i, ln in st:
-        ix = F.nodes[F.strip(ln["i"])].get("n")
+        ixn = F.nodes[F.strip(ln["i"])]
+        if ixn.get("k") == "un" and ixn["op"] in ("post++",):
+            # threads[n++]: the slot written is the value the loop condition tested
+            ixn = F.nodes[F.strip(ixn["e"])]
+        ix = ixn.get("n")
         heads = [a for a, k in ctrldep_closure(F, F.block_of(i)) if F.blocks[a].tk in ("ForStmt", "WhileStmt", "DoStmt") and F.blocks[a].tc is not None]
         labs = [canon.cond(F, cfg.cond_atom(F, F.blocks[a].tc, True)[0]) for a in heads]
         ok = any(lab == "%s < %s" % (ix, cnt[0]) and not flip for lab, flip in labs)
@@ -418,6 +425,8 @@ def ctrldep_closure(F, bid):
 
 
 def run(P, rep, tier):
+    common.rule_X8(P, rep)
+    common.rule_X7(P, rep, records=('unit_to_thread',))
     common.rule_X4(P, rep)
     common.run_shared(P, rep, which=("X2",))
     rule_R1(P, rep)
@@ -429,6 +438,8 @@ def run(P, rep, tier):
     rule_R7(P, rep)
     from . import C07
     common.borrow(rep, P, C07.rule_R7, "R8")
+    from . import c18_commit
+    common.borrow(rep, P, c18_commit.rule_R6, "R9")
     sub = type(rep)(rep.prop, rep.tier, rep.variant)
     C03.rule_R5(P, sub)
     for o in sub.obligations:
